@@ -852,11 +852,25 @@ def run_plugin_class(chk, cls, cases, impl, to_text, monitor, nontrivial=lambda 
 
 
 def ops_candidates(case):
-    ops = case["ops"]
-    for i in range(len(ops)):
-        c = dict(case)
-        c["ops"] = ops[:i] + ops[i + 1:]
-        yield c
+    if "ops" in case:
+        ops = case["ops"]
+        for i in range(len(ops)):
+            c = dict(case)
+            c["ops"] = ops[:i] + ops[i + 1:]
+            yield c
+    elif "pts" in case:
+        for i in range(len(case["pts"])):
+            if len(case["pts"]) > 1:
+                c = dict(case)
+                c["pts"] = case["pts"][:i] + case["pts"][i + 1:]
+                yield c
+    elif "nodes" in case and "me" in case:
+        for i in range(len(case["nodes"])):
+            if i != case["me"]:
+                c = dict(case)
+                c["nodes"] = case["nodes"][:i] + case["nodes"][i + 1:]
+                c["me"] = case["me"] - (1 if i < case["me"] else 0)
+                yield c
 
 
 def gen_disp_case(R, maxops=10):
@@ -1074,9 +1088,97 @@ def check_C17(chk, R, S):
     run_plugin_class(chk, "trip-fresh-plugin", fresh, impl, plugins.trip_to_text, M.mon_C17)
 
 
+def check_C19(chk, R, S):
+    import geomcam as G
+    chk.rule = ("random camera orientations / cone angles (incl. >= 180 deg) / reaches; other nodes at random places, exactly "
+                "collinear with the axis (in front, at the reach, beyond), exactly opposite, at the camera's own position; "
+                "cameras re-oriented with change_facing; integer scenes translated by integer vectors (exact) must give the "
+                "same answer; bit-exact comparison with the model plus an independent atan2 oracle with a 1e-4 rad guard band")
+    excs = {}
+
+    def impl(c):
+        r, e = G.run_camera_impl(c)
+        excs[id(c)] = e
+        return r
+
+    def mon(c, lines):
+        return G.mon_C19(c, lines, excs.get(id(c)))
+    cases = [item["case"] for item in corpus("C19")]
+    cases += [G.gen_camera_case(R) for _ in range(S["sims"] * 3)]
+    run_plugin_class(chk, "camera-scenes", cases, impl, G.camera_to_text, mon)
+    # translation invariance on exactly representable scenes
+    n_pairs = 0
+    for _ in range(S["sims"] // 2):
+        c = G.gen_camera_case(R, integer=True)
+        t = (float(R.randint(-40, 40)), float(R.randint(-40, 40)), float(R.randint(-10, 40)))
+        c2 = dict(c, nodes=[(p[0] + t[0], p[1] + t[1], p[2] + t[2]) for p in c["nodes"]])
+        a, _ = G.run_camera_impl(c)
+        b, _ = G.run_camera_impl(c2)
+        ia = [x.split()[0] for x in a[0].split("|")[1:]]
+        ib = [x.split()[0] for x in b[0].split("|")[1:]]
+        chk.record("camera-translated", {"scene": c, "shift": t}, True)
+        n_pairs += 1
+        if ia != ib:
+            chk.violation("camera-translated", {"scene": c, "shift": t},
+                          ["C19: nodes reported %s, after translating the whole scene by %s: %s" % (ia, t, ib)])
+    chk.extra["translated_pairs"] = n_pairs
+
+
+def check_C20(chk, R, S):
+    import geomcam as G
+    chk.rule = ("random references with |lat| <= 60 deg and targets within ~1.5 km in all four quadrants (incl. due N/E/S/W "
+                "and the reference itself): bit-exact conversion vs the model, quadrant signs, altitude, and every pairwise "
+                "distance of converted points against great-circle + altitude distance (0.5 %); simulations in which a node "
+                "is sent to geographic coordinates must move exactly as when sent to the converted point")
+    cases = [item["case"] for item in corpus("C20")]
+    cases += [G.gen_geo_case(R) for _ in range(S["sims"] * 4)]
+    run_plugin_class(chk, "geo-points", cases, G.run_geo_impl, G.geo_to_text, G.mon_C20)
+    # goto-geo == goto(converted), through the mobility handler
+    from gradysim.protocol.position import geo_to_cartesian
+    scs_geo, scs_xyz = [], []
+    for _ in range(max(20, S["sims"] // 4)):
+        g = G.gen_geo_case(R)
+        ref, tgt = g["ref"], g["pts"][0]
+        try:
+            conv = tuple(geo_to_cartesian(tuple(ref), tuple(tgt)))
+        except Exception:  # noqa: BLE001
+            conv = (0.0, 0.0, 0.0)
+        base = {"handlers": ["M", "T"], "nodes": [{"pos": (0.0, 0.0, 0.0), "ty": 0}, {"pos": (5.0, 5.0, 0.0), "ty": 0}], "med": (60.0, 0.0, 0.0),
+                "mob": (0.5, R.choice([10.0, 50.0, 200.0]), tuple(ref)), "asserts": [], "seed": 1, "dur": 6.0, "maxit": None,
+                "drv": ("run",)}
+        # the same latitude/longitude again at other altitudes, later and by another node
+        tgt2 = (tgt[0], tgt[1], tgt[2] + R.choice([25.0, -10.0, 3.5]))
+        tgt3 = (tgt[0], tgt[1], tgt[2] + R.choice([40.0, 7.0]))
+        conv2 = tuple(geo_to_cartesian(tuple(ref), tgt2))
+        conv3 = tuple(geo_to_cartesian(tuple(ref), tgt3))
+        k = R.randrange(2, 8)
+        a = dict(base, script=[[{"trig": ("init",), "nth": None, "acts": [("gotogeo",) + tuple(tgt)]},
+                                {"trig": ("telem",), "nth": k, "acts": [("gotogeo",) + tgt2]}],
+                               [{"trig": ("init",), "nth": None, "acts": [("gotogeo",) + tgt3]}]])
+        b = dict(base, script=[[{"trig": ("init",), "nth": None, "acts": [("goto",) + conv]},
+                                {"trig": ("telem",), "nth": k, "acts": [("goto",) + conv2]}],
+                               [{"trig": ("init",), "nth": None, "acts": [("goto",) + conv3]}]])
+        scs_geo.append(a)
+        scs_xyz.append(b)
+    ra, rb = corr.corr_sims(scs_geo), corr.corr_sims(scs_xyz)
+    for x, y in zip(ra, rb):
+        chk.record("goto-geo-vs-goto", _brief(x["sc"]), True)
+        chk.validated += 2
+        for r in (x, y):
+            if r["diff"] is not None:
+                chk.corr_break("goto-geo-vs-goto", r["sc"], r["diff"], extra={"impl": r["impl"][:40], "model": r["model"][:40]})
+        ta = [l for l in x["impl"] if " telem " in l]
+        tb = [l for l in y["impl"] if " telem " in l]
+        if ta != tb:
+            d = corr.first_diff(ta, tb)
+            chk.violation("goto-geo-vs-goto", {"geo": x["sc"], "xyz": y["sc"]},
+                          ["C20: a goto in geographic coordinates and a goto to the converted point move the node differently: %r vs %r" % (d[1], d[2])])
+
+
 CHECKS = {"C01": check_C01, "C02": check_C02, "C03": check_C03, "C04": check_C04, "C05": check_C05, "C06": check_C06,
           "C07": check_C07, "C08": check_C08, "C09": check_C09, "C10": check_C10, "C11": check_C11, "C12": check_C12,
-          "C13": check_C13, "C15": check_C15, "C16": check_C16, "C17": check_C17, "C18": check_C18}
+          "C13": check_C13, "C15": check_C15, "C16": check_C16, "C17": check_C17, "C18": check_C18,
+          "C19": check_C19, "C20": check_C20}
 
 
 def main():
@@ -1100,7 +1202,15 @@ def main():
     if args.replay:
         sys.exit(replay(chk, args.replay))
     R = random.Random(seed * 1000003 + int(args.prop[1:]))
-    CHECKS[args.prop](chk, R, sizes(tier))
+    try:
+        CHECKS[args.prop](chk, R, sizes(tier))
+    except Exception:      # noqa: BLE001  a crash of the machinery is reported as such, never as a pass
+        import traceback
+        traceback.print_exc()
+        chk.notes.append("the check's own machinery raised an exception on this run")
+        rc = chk.finish()
+        print("HARNESS-ERROR property=%s (the check machinery crashed; see traceback above)" % args.prop)
+        sys.exit(rc if rc != 0 else 3)
     sys.exit(chk.finish())
 
 
